@@ -440,6 +440,12 @@ def r02_c(ctx):
                 # is the count variable read again after this statement?
                 later = [x for x in ast.walk(caller.node) if isinstance(x, ast.Name) and x.id == arg.id
                          and isinstance(x.ctx, ast.Load) and x.lineno > stmt.end_lineno]
+                # inside a loop the call itself reads the count again on the next iteration
+                lp = getattr(stmt, '_parent', None)
+                while lp is not None and lp is not caller.node:
+                    if isinstance(lp, (ast.For, ast.While)):
+                        later = later or [arg]
+                    lp = getattr(lp, '_parent', None)
                 ok = rebinds or not later
                 rr.ob(ok, {'call': '%s:%d %s' % (caller.qual, call.lineno, norm(call)[:50]), 'count': arg.id,
                            'result_rebinds_count': rebinds, 'count_read_later': bool(later)})
